@@ -5,12 +5,29 @@ use std::time::Instant;
 use crate::common::*;
 use crate::engines::reqgrammar::*;
 
+/// The C12 engine re-used for C17: a panic while connecting through the TLS transport.
+pub struct TlsPanics;
+impl Engine for TlsPanics {
+    type Case = crate::engines::tlswire::TlsCase;
+    fn name(&self) -> &'static str {
+        "tlswire"
+    }
+    fn run_case(&self, case: &Self::Case) -> CaseReport {
+        let mut rep = crate::engines::tlswire::TlsEngine.run_case(case);
+        rep.violations.retain(|v| v.sig.starts_with("C12/panic"));
+        for v in rep.violations.iter_mut() {
+            v.sig = "C17/panic-in-tls-transport".into();
+        }
+        rep
+    }
+}
+
 pub fn run(ctx: &Ctx) -> i32 {
     let started = Instant::now();
     let prop: &'static str = if ctx.prop == "C13" { "C13" } else { "C17" };
     let engine = ReqEngine { prop };
     if let Some(path) = &ctx.replay {
-        return match read_replay(path).and_then(|rf| replay_one(ctx, &engine, &rf)) {
+        return match read_replay(path).and_then(|rf| if rf.engine == "tlswire" { replay_one(ctx, &TlsPanics, &rf) } else { replay_one(ctx, &engine, &rf) }) {
             Ok(c) => c,
             Err(e) => {
                 eprintln!("replay failed: {e}");
@@ -20,6 +37,10 @@ pub fn run(ctx: &Ctx) -> i32 {
     }
     let mut total = Outcome::default();
     total.merge(run_generated(ctx, &engine, "grammar", strategy, ctx.cases(60_000, 2_000_000), 600));
+    if prop == "C17" {
+        // TLS transport leg: the tlswire cases, only panics count here
+        total.merge(run_generated(ctx, &TlsPanics, "tls-transport", crate::engines::tlswire::strategy, ctx.cases(20_000, 600_000), 300));
+    }
     let (rule, mins): (&str, Vec<(&'static str, f64)>) = if prop == "C13" {
         (
             "request = scheme {http,https,ws,wss,ftp,custom} x host {names, IPv4, bracketed IPv6, unusual URI-legal} x port {absent, default, other} x path x query x URI form {absolute, origin, authority, asterisk} x method (incl. CONNECT, OPTIONS, extension) x version (all five constants) x pre-set headers (caller Host, Connection, Keep-Alive, Proxy-Connection, Transfer-Encoding, Upgrade, x-custom) x connection outcome (request version x ALPN); legs: public SetHostHeader/Http2Checks/Http1Checks layers over a stub connection, ConnectionPoolService (with and without pool) and ConnectorService over stub transport/protocol, and the real HttpConnectionBuilder + RequestExecutor with the client's bytes captured on the wire (preface / request line / Host header parsed). non-trivial = anything but a plain GET http://name/ over HTTP/1.1 without pre-set headers; distinct by hash of the case",
